@@ -366,7 +366,17 @@ pub fn observe(ctx: &Ctx, st: &mut Stats, job: &Job) {
     }
     // the physical mode: decode the symbol with the parameters it announces
     let phys_mode = match decode::decode(&m) {
-        Ok(d) if !d.parsed.segments.is_empty() => d.parsed.segments[0].mode,
+        Ok(d) if !d.parsed.segments.is_empty() => {
+            // ONE mode is reported for the whole symbol: a later segment in another mode makes that report untrue
+            // however the first mode indicator reads (segments that repeat the first one's mode are fine)
+            let first = d.parsed.segments[0].mode;
+            if let Some((i, other)) = d.parsed.segments.iter().enumerate().find(|(_, s)| s.mode != first) {
+                flag(st, ID, ("mode-of-later-segment".into(), format!("the symbol carries {} segments: the first is {} ({} characters), segment {} is {} ({} characters); the QR code reports the single mode {}", d.parsed.segments.len(), tables::MODE_NAMES[first], d.parsed.segments[0].bytes.len(), i + 1, tables::MODE_NAMES[other.mode], other.bytes.len(), qr.mode.map(|x| tables::MODE_NAMES[adapter::mode_no(x)]).unwrap_or("none"))), job, false);
+                return;
+            }
+            st.count("segments_read_for_the_physical_mode", d.parsed.segments.len() as u64);
+            first
+        }
         Ok(_) => {
             flag(st, ID, ("no-segment".into(), "symbol decodes to zero segments".into()), job, second(k1));
             return;
@@ -406,7 +416,7 @@ pub fn run(ctx: &Ctx) -> Report {
     let st = pool::run(&jobs, ctx.remaining(), |st, job, _| observe(ctx, st, job));
     let mut rep = Report::new(
         st,
-        "jobs = every (version, level, mask) cell (1280, enumerated completely) with the 16 forced/automatic option combinations rotating (level only left automatic in Q cells), + builds with nothing forced per (version, class) + feedback-directed searches for unusually clean symbols (payload hill-climbed towards the lowest ranking score the crate reports, versions 1-3, automatic mask; every improvement checked) + option walks (one payload built 4-8 times in a row on one thread while one option at a time is forced, released or changed) + builds with no level given and more data than level Q holds in version 40 (any symbol returned there is not level Q) + every dictionary prefix (byte order marks, URL schemes, escapes, magic numbers) alone and with tails, in automatic mode, its own mode and Byte mode + forced Numeric/Alphanumeric mode on inputs outside the alphabet (nothing has to come back, but a QR code that does must report the mode its mode indicator carries and the one that was forced); both 15-bit format copies are read at the ISO positions and must equal BCH(15,5)(level,mask)^0x5412 computed by polynomial division, both 18-bit version blocks must equal BCH(18,6)(version), and version/level/mask/mode/size fields must equal what the symbol physically encodes (mode from the decoded mode indicator), what was forced, and level Q by default; distinct key = (options, len, payload hash); every case non-trivial",
+        "jobs = every (version, level, mask) cell (1280, enumerated completely) with the 16 forced/automatic option combinations rotating (level only left automatic in Q cells), + builds with nothing forced per (version, class) + feedback-directed searches for unusually clean symbols (payload hill-climbed towards the lowest ranking score the crate reports, versions 1-3, automatic mask; every improvement checked) + option walks (one payload built 4-8 times in a row on one thread while one option at a time is forced, released or changed) + builds with no level given and more data than level Q holds in version 40 (any symbol returned there is not level Q) + every dictionary prefix (byte order marks, URL schemes, escapes, magic numbers) alone and with tails, in automatic mode, its own mode and Byte mode + forced Numeric/Alphanumeric mode on inputs outside the alphabet (nothing has to come back, but a QR code that does must report the mode its mode indicator carries and the one that was forced); both 15-bit format copies are read at the ISO positions and must equal BCH(15,5)(level,mask)^0x5412 computed by polynomial division, both 18-bit version blocks must equal BCH(18,6)(version), and version/level/mask/mode/size fields must equal what the symbol physically encodes (mode from the decoded mode indicators of ALL segments: a later segment in another mode belies the single reported mode), what was forced, and level Q by default; distinct key = (options, len, payload hash); every case non-trivial",
     );
     rep.exhaustive = Some(true);
     rep.expected_sets = vec![("version_level_mask", 1280), ("level_mask_words", 32), ("version_words", 34), ("forced_option_combos", 16)];
